@@ -155,6 +155,34 @@ def run(case):
                     if not close(second[n][t], vals[t]):
                         return "second session: %s s(%r) = %r, expected %r from the scenario's own settings (first session applied %r)" % (n, t, second[n][t], vals[t], case.get("steps"))
             b.end_session()
+            # a session begun WITH settings for one scenario re-parameterises that scenario only
+            if len(sess) >= 2:
+                who = sess[0]
+                b.begin_session(scenarios=sess, scenario_managers=["sm"], equations=["s"], starttime=start, dt=dt,
+                                settings={"sm": {who: {"constants": {"rate": 9.0}}}})
+                third = {n: {} for n in sess}
+                for k, t in enumerate(grid0):
+                    res = b.run_step()
+                    for n in sess:
+                        third[n][t] = list(res["sm"][n]["s"].values())[0]
+                b.end_session()
+                b.register_scenarios(scenario_manager="sm", scenarios={"LATE": {}})
+                late = b.run_scenarios(scenario_managers=["sm"], scenarios=["LATE"], equations=["s"])
+                lrate = case["base_constants"] if case.get("base_constants") is not None else case["base_rate"]
+                grid, vals, _ = reference(start, stop, dt, lambda k: (lrate, P0))
+                col = late[late.columns[0]]
+                for t in grid:
+                    if not close(col[t], vals[t]):
+                        return "scenario registered after a session that re-parameterised %s: s(%r) = %r, expected %r" % (who, t, col[t], vals[t])
+                for n in sess[1:]:
+                    touched = [w for (w, _r) in case.get("steps", {}).values()]
+                    if n in touched and "rate" not in case["scen"][n]:
+                        continue
+                    rate, pts = settings_of(n)[:2]
+                    grid, vals, _ = reference(start, stop, dt, lambda k: (rate, pts))
+                    for t in grid:
+                        if not close(third[n][t], vals[t]):
+                            return "settings given to %s at begin_session changed scenario %s: s(%r) = %r, expected %r" % (who, n, t, third[n][t], vals[t])
     finally:
         b.destroy()
     return None
